@@ -577,6 +577,13 @@ def generate(repo, overlay, tier):
         "attribute_name_terminators": sorted(m.terminators("attribute_name_state")) if "attribute_name_state" in m.states else [],
         "states": m.order,
     }
+    # emitted for harnesses that compare the name validators with the tokenizer (C08)
+    fx = "//! GENERATED from /repo's tokenizer DSL on every run: bytes on which a name state leaves via an explicit arm.\n#![allow(dead_code)]\n"
+    fx += "pub(crate) const TAG_NAME_TERMINATORS: &[u8] = &%s;\n" % json.dumps(facts["tag_name_terminators"])
+    fx += "pub(crate) const ATTRIBUTE_NAME_TERMINATORS: &[u8] = &%s;\n" % json.dumps(facts["attribute_name_terminators"])
+    dst3 = os.path.join(overlay, "src", "verif_kani_dsl_facts_gen.rs")
+    if not os.path.exists(dst3) or open(dst3).read() != fx:
+        open(dst3, "w").write(fx)
     return m, facts
 
 
